@@ -99,6 +99,8 @@ class Fn:
 
     def __init__(self, mod, node, sigs, overrides, externs=None):
         self.loop_k = []               # continuations that end the current iteration of the enclosing loops
+        self.while_depth = 0
+        self.uses_fuel = False
         self.externs = externs or {}   # source name -> (arg types, return type, Coq name, monadic?)
         self.mod = mod
         self.node = node
@@ -496,6 +498,16 @@ class Fn:
             if t == "int":
                 v = self.fresh()
                 return b + [(v, "np_full1 f0 %s" % c)], v, ("list", "F")
+        if fn == "list" and len(e.args) == 1 and not e.keywords and not isinstance(e.args[0], ast.Call):
+            b, c, t = self.expr(e.args[0], env)
+            if isinstance(t, tuple) and t[0] == "list":
+                return b, c, t          # a copy of an immutable value is the value
+        if fn == "random.sample" and "random_sample_range" in self.externs and len(e.args) == 2 and not e.keywords \
+                and isinstance(e.args[0], ast.Call) and ast.unparse(e.args[0].func) == "range" and len(e.args[0].args) == 1:
+            b1, c1, t1 = self.expr(e.args[0].args[0], env)
+            b2, c2, t2 = self.expr(e.args[1], env)
+            if t1 == "int" and t2 == "int":
+                return b1 + b2, "(random_sample_range %s %s)" % (c1, c2), ("list", "int")
         if fn == "int" and len(e.args) == 1 and not e.keywords:
             b, c, t = self.expr(e.args[0], env)
             if t == "float":
@@ -599,6 +611,9 @@ class Fn:
                     add(n)
                 if s.orelse:
                     raise Unsupported("for-else")
+            elif isinstance(s, ast.While):
+                for n in self.assigned(s.body):
+                    add(n)
             elif isinstance(s, (ast.Assert, ast.Raise, ast.Return, ast.Expr, ast.Pass, ast.Continue)):
                 pass
             else:
@@ -632,7 +647,30 @@ class Fn:
                 raise Unsupported("bare return")
             b, c, t = self.expr(s.value, env)
             self.check_ret(t)
+            if self.while_depth:
+                return self.wrap(b, "Ret (inr %s)" % c)     # leaves the function from inside a while loop
             return self.wrap(b, "Ret %s" % c)
+        if isinstance(s, ast.While):
+            # while cond: body  - recursion on explicit fuel (the function's extra first parameter `fuel`); running out of fuel
+            # is the error OutOfFuel, excluded by the statements.  A `return` inside the body leaves the function.
+            if s.orelse or self.while_depth or self.loop_k:
+                raise Unsupported("while form")
+            for n in ast.walk(s):
+                if isinstance(n, (ast.Break, ast.Continue, ast.For, ast.While)) and n is not s:
+                    raise Unsupported("break / continue / nested loop inside while")
+            self.uses_fuel = True
+            state = [n for n in self.assigned(s.body) if n in env]
+            spat = self.state_pat(state)
+            bc, cc, tc = self.expr(s.test, env)
+            if tc != "bool":
+                raise Unsupported("while condition type")
+            self.while_depth += 1
+            body = self.block(s.body, env, lambda e2: "Ret (inl %s)" % spat[0])
+            self.while_depth -= 1
+            cond = self.wrap(bc, "Ret %s" % cc)
+            v = self.fresh()
+            return "%s <- py_while fuel (fun %s =>\n  %s) (fun %s =>\n  %s) %s ;;\n  match %s with\n  | inr r_ => Ret r_\n  | inl %s =>\n  %s\n  end" % (
+                v, spat[1], cond, spat[1], body, spat[0], v, spat[1], nxt(env))
         if isinstance(s, ast.Raise):
             exc = s.exc
             name = ast.unparse(exc.func) if isinstance(exc, ast.Call) else (ast.unparse(exc) if exc is not None else None)
@@ -768,6 +806,9 @@ class Fn:
                 return self.wrap(b, "let %s := (%s ++ [%s]) in\n  %s" % (cname(a), cname(a), c, nxt(env2)))
             if s.value.func.attr == "pop" and not s.value.args and not s.value.keywords and isinstance(ta, tuple) and ta[0] == "list":
                 return "%s <- py_pop_last %s ;;\n  %s" % (cname(a), cname(a), nxt(env))
+            if s.value.func.attr == "pop" and len(s.value.args) == 1 and not s.value.keywords and isinstance(ta, tuple) and ta[0] == "list" \
+                    and isinstance(s.value.args[0], ast.Constant) and s.value.args[0].value == 0:
+                return "%s <- py_pop_first %s ;;\n  %s" % (cname(a), cname(a), nxt(env))
             raise Unsupported("method call %s" % ast.unparse(s))
         if isinstance(s, ast.If) and not s.orelse and s.body and isinstance(s.body[-1], ast.Continue) and self.loop_k:
             # if c: ...; continue   (directly in a loop body): the iteration ends here with the state as it is
@@ -938,6 +979,8 @@ class Fn:
         def kend(env2):
             raise Unsupported("function may end without return")
         body = self.block(f.body, env, kend)
+        if self.uses_fuel:
+            params = ["(fuel : nat)"] + params
         return "Definition %s %s : res %s :=\n  %s." % (fname(f.name), " ".join(params), ty_coq(self.ret), body)
 
 
@@ -1001,6 +1044,18 @@ TARGETS = {
                             {"arguments": ("record", "ll_args", {"window_size": "int", "num_clusters": "int"}, "la_", "ll_args"),
                              "clusters": ("list", "CL"), "point_labels": ("list", "int")}, "lm_", "(ll_model CL)"),
                            ("_compute_log_likelihood_by_cluster", "return"): ("list", ("list", "F"))}),
+    "cluster_maintenance": ("cluster_maintenance.py", ["_find_point_donor", "_move_random_points"],
+                            {("_find_point_donor", "model"): ("record", "rp_model",
+                             {"arguments": ("record", "rp_args", {"min_cluster_size": "int"}, "ra_", "rp_args"),
+                              "clusters": ("list", ("record", "rp_cluster", {"size": "int", "member_points": ("list", "int")}, "rc_", "rp_cluster")),
+                              "point_labels": ("list", "int")}, "rm_", "rp_model"),
+                             ("_find_point_donor", "potential_donor_ids"): ("list", "int"),
+                             ("_find_point_donor", "return"): ("tuple", ["int", ("list", "int")]),
+                             ("_move_random_points", "model"): ("record", "rp_model",
+                             {"arguments": ("record", "rp_args", {"min_cluster_size": "int"}, "ra_", "rp_args"),
+                              "clusters": ("list", ("record", "rp_cluster", {"size": "int", "member_points": ("list", "int")}, "rc_", "rp_cluster")),
+                              "point_labels": ("list", "int")}, "rm_", "rp_model"),
+                             ("_move_random_points", "return"): ("list", "int")}),
 }
 # per kernel module: extra imports, extra section variables, and calls rendered as section variables / imported definitions
 KERNEL_MODULES = {
@@ -1047,6 +1102,10 @@ KERNEL_MODULES = {
                  "  (* likelihood.point_log_likelihood(point, cluster, window_size, num_data_series): uninterpreted *)\n"
                  "  Variable point_log_likelihood : list F -> CL -> Z -> Q -> F.\n"),
         "externs": {"likelihood.point_log_likelihood": ([("list", "F"), "CL", "int", "float"], "F", "point_log_likelihood", False)}},
+    "cluster_maintenance": {
+        "imports": "",
+        "vars": "  Variable random_sample_range : Z -> Z -> list Z.   (* random.sample(range(n), k): the draw (uninterpreted) *)\n",
+        "externs": {"random_sample_range": ([], None, "random_sample_range", False)}},
     "cluster_metrics": {
         "imports": "",
         "vars": ("  Variable M : Type.                            (* 2-D float64 matrices (opaque) *)\n"
